@@ -162,6 +162,24 @@ func HarnessC01Recreate() {
 	verif.Assume(err == nil)
 	a := symTriple("a", true)
 	g.AddTriples(ctx, []*triple.Triple{a.t})
+	// creating an existing name, getting or dropping a missing one: an error and no effect
+	_, cerr := st.NewGraph(ctx, "?g")
+	verif.Assert(cerr != nil, "C01/recreate/create-of-existing-name-fails")
+	_, gerr := st.Graph(ctx, "?missing")
+	verif.Assert(gerr != nil && st.DeleteGraph(ctx, "?missing") != nil, "C01/recreate/get-and-drop-of-missing-name-fail")
+	h, herr := st.Graph(ctx, "?g")
+	verif.Assert(herr == nil, "C01/recreate/failed-create-has-no-effect")
+	if herr == nil {
+		ex, _ := h.Exist(ctx, a.t)
+		lst, _ := listing(h)
+		verif.Assert(ex && len(lst) == 1, "C01/recreate/failed-create-has-no-effect")
+		b := symTriple("b", true)
+		g.AddTriples(ctx, []*triple.Triple{b.t})
+		ex2, _ := h.Exist(ctx, b.t)
+		verif.Assert(ex2, "C01/recreate/failed-create-has-no-effect")
+		g.RemoveTriples(ctx, []*triple.Triple{b.t})
+		g.AddTriples(ctx, []*triple.Triple{a.t})
+	}
 	verif.Assert(st.DeleteGraph(ctx, "?g") == nil, "C01/recreate/drop-succeeds")
 	g2, err := st.NewGraph(ctx, "?g")
 	verif.Assert(err == nil, "C01/recreate/create-again-succeeds")
